@@ -454,6 +454,16 @@ def run(ctx: Any, prog: Program) -> None:
             shp_ = _flat(c_.args[1])
             ctx.check('C15.F2', shp_ == ['self.height', 'self.width', '4'], vtf, c_, f'Frame.__buffer__ exports its pixels with shape ({", ".join(shp_)}); the data is stored row by row (`(y * width + x) * 4`), i.e. as '
                       '(height, width, 4): for a non-square frame view[y, x] addresses another pixel than frame[x, y], and valid coordinates on the long side are refused', func='Frame.__buffer__', text='buffer shape is (height, width, 4)')
+    # a frame owns its pixel array: `self._data = <other frame>._data` (or a local holding it) makes two frames share one array, and an edit
+    # of either shows in both; copies are made with a slice (`[:]`) or by assignment INTO the own array (`self._data[:] = ...`)
+    for fm_name, fm_fn in vtf.methods('Frame').items():
+        dl_ = {t.id: a.value for a in walk_no_nested(fm_fn) if isinstance(a, ast.Assign) and len(a.targets) == 1 for t in a.targets if isinstance(t, ast.Name)}
+        for a in [a for a in walk_no_nested(fm_fn) if isinstance(a, ast.Assign) and any(dotted(t) == 'self._data' for t in a.targets)]:
+            v_ = dl_.get(a.value.id, a.value) if isinstance(a.value, ast.Name) else a.value
+            alias_ = isinstance(v_, ast.Attribute) and v_.attr == '_data' and dotted(v_.value) != 'self'
+            if alias_:
+                ctx.check('C15.F2', False, vtf, a, f'Frame.{fm_name} stores the other frame\'s array itself (`{U(a)[:50]}`): both frames then edit one array, so pixels set on one frame change the other and are saved for both',
+                          func=f'Frame.{fm_name}', text=f'Frame.{fm_name}: pixel array copied, not shared')
     # save(): side sequence computed from the version written
     has_override = any(a.arg == 'version' for a in sv.args.args)
     dr = vm['_depth_range']
@@ -1177,6 +1187,7 @@ def accepted_region(test: ast.AST, coords: Tuple[str, str] = ('x', 'y')) -> Dict
 
 
 MUTANTS: List[Dict[str, Any]] = [
+    {'id': 'copy_from_shares_the_array', 'file': 'vtf.py', 'find': "                self._data = source._data[:]", 'replace': "                self._data = source._data", 'expect': 'C15.F2', 'note': 'round 14'},
     {'id': 'frame_buffer_shape_transposed', 'file': 'vtf.py', 'find': ".cast('B', (self.height, self.width, 4))", 'replace': ".cast('B', (self.width, self.height, 4))", 'expect': 'C15.F2', 'note': 'round 13'},
     {'id': 'depth_field_gate_drops_7_2', 'file': 'vtf.py', 'find': "        if version_minor >= 2:\n            [vtf.depth] = struct.unpack('H', file.read(2))", 'replace': "        if vtf.version > (7, 2):\n            [vtf.depth] = struct.unpack('H', file.read(2))", 'expect': 'C15.F1', 'note': 'round 12: gate on the version pair of the object under construction'},
     {'id': 'resource_gate_from_own_version', 'file': 'vtf.py', 'find': "        if version_minor >= 3:\n            deferred.set_data('low_res', file.tell())", 'replace': "        if self.version >= (7, 3):\n            deferred.set_data('low_res', file.tell())", 'expect': 'C15.F1', 'note': 'round 11'},
